@@ -820,6 +820,11 @@ class NavChain(object):
         self._kind = kind
         return self
     
+    # A navigation chain is not a collection, invoke it to obtain the result.
+    # Without this, python falls back on iterating via __getitem__, which 
+    # never ends.
+    __iter__ = None
+    
     def __getitem__(self, args):
         '''
         The navigation chain specified a link, e.g. the rel_id and phrase, e.g.
